@@ -3,4 +3,4 @@
 From PegtlV Require Import Base Grammar Engine ExactSound Regex Rfc3986 UriModel UriProof.
 
 Lemma sound_URI : forall s, bytes_ok s -> uri_accepts TURI s -> matches (rfc TURI) s.
-Proof. apply sound_of_cert. vm_compute. reflexivity. Qed.
+Proof. apply sound_of_cert. vm_cast_no_check (eq_refl true). Qed.
